@@ -1708,6 +1708,22 @@ def check(pid, tier, seed):
                                                "source text defines them, incl. termination of the source's loops)"
                                                if ok_tr else "UL.SrcTie.TransferParse does not build")
 
+    # ---- purity obligation.  The model treats every library function as a function of its arguments (DESIGN.md section 1: no global
+    # state); on the baseline tree that is visible in the source: no `thread_local!`, no `static mut`, no `static` with interior
+    # mutability.  When the sources hold such an item AND a function this property rests on is no longer proved equal to the (pure)
+    # model, the property is no longer shown to hold of the code whatever the streams find: reported like a theorem that no longer
+    # checks (with a concrete replay when the search finds one, `no-failing-input-found` otherwise).
+    if source_tie is not None:
+        import cfgscan as _cs
+        state_items = _cs.state_scan(R.REPO)
+        source_tie["global_state_items"] = state_items
+        lost = [fn for fn, f in source_tie["functions"].items() if f["status"] != "proved"]
+        if state_items and lost:
+            broken_theorems.append("purity: the sources hold global mutable state (%s) and %d of the %d functions this property rests on are no longer "
+                                   "proved equal to the model, which is a function of its arguments (%s)" % (
+                                       "; ".join("%s:%d %s" % (x["file"], x["line"], x["what"]) for x in state_items[:4]), len(lost), source_tie["of"],
+                                       ", ".join(lost[:6])))
+
     # the transfer theorems (the property's statements about the source-derived definitions) are audited like the property theorems:
     # every one of them with the axioms it rests on
     TRANSFER_OF = {"C11": "Transfer", "C15": "Transfer", "C10": "TransferOps", "C12": "TransferOps", "C17": "TransferOps", "C06": "TransferLikely",
@@ -1954,7 +1970,9 @@ def check(pid, tier, seed):
             nofail.append({"kind": "correspondence", "no_longer_checks": "corr:%s/%s" % (sname, small.split(" ", 1)[0]), "config": label,
                            "request": small, "shown": R.show_req(small), "impl": i2, "model_and_spec": m2, "seed": seed, "tier": tier})
         for b_ in broken_theorems:
-            nofail.append({"kind": "theorem", "no_longer_checks": "UL.Props.%s" % pid, "detail": b_, "seed": seed, "tier": tier})
+            nofail.append({"kind": "purity" if b_.startswith("purity:") else "theorem",
+                           "no_longer_checks": ("purity of the functions UL.SrcTie ties to the model" if b_.startswith("purity:") else "UL.Props.%s" % pid),
+                           "detail": b_, "seed": seed, "tier": tier})
         for pr in problems:
             if pr["side"] == "model":
                 nofail.append({"kind": "model-driver", "no_longer_checks": "driver", "detail": pr, "seed": seed, "tier": tier})
